@@ -27,7 +27,7 @@ TWO_BRANCH_CONTEXTS = ('ifelse', 'ifelse_unres', 'nested_ifelse_arg', 'ifelse_sa
 # the call is written with the wrapper's star names, but in a scope where those names are bound to something else (the
 # parameters of a nested function, the targets of a comprehension): nothing of the wrapper's is forwarded
 SHADOW_CONTEXTS = ('shadow_nested', 'shadow_async', 'shadow_comp')
-ROUTES = ('global', 'closure', 'attr1', 'attr2', 'method', 'param', 'partial', 'wrapsdeco')
+ROUTES = ('global', 'closure', 'attr1', 'attr2', 'method', 'param', 'partial', 'wrapsdeco', 'helper')
 TAINTS_ANY = ('rebind', 'augassign', 'delrebind', 'fortarget', 'withas', 'walrus', 'starunpack', 'nonlocal',
               'importas', 'fromimportas', 'defname', 'classname', 'matchcapture', 'matchstar')
 TAINTS_VK = ('methodcall', 'itemstore', 'handover', 'handoverkw', 'nested_methodcall', 'nested_itemstore')
@@ -39,7 +39,7 @@ def star(outer, kind):
 
 def callee_ref(route, uid, j):
     base = 'C%s_%d' % (uid, j)
-    if route in ('global', 'wrapsdeco', 'wrapssig'):
+    if route in ('global', 'wrapsdeco', 'wrapssig', 'helper'):
         return base
     if route == 'closure':
         return 'cal%d' % j
@@ -75,6 +75,9 @@ def call_expr(prog, uid, j):
         ref = 'UNRES%s[0]' % uid         # a callee no static reading can resolve
     if prog.route == 'partial':
         return 'functools.partial(%s)' % ', '.join([ref] + parts)
+    if prog.route == 'helper':
+        # through a helper that many wrappers share, each handing it another callee
+        return 'APPLY(%s)' % ', '.join([ref] + parts)
     return '%s(%s)' % (ref, ', '.join(parts))
 
 
